@@ -65,3 +65,199 @@ package keeper
 //@ lemma[C02.L5.last] last_share_takes_pool(S Int, T Int)
 //@   hyp  S > 0 && T >= 0
 //@   goal redeem_all(S, S, T) == T
+
+// ---------------------------------------------------------------------------------------------
+// Store vocabulary of the delegation module
+
+//@ define delKey(s, a, o)     = cat(g("x/delegation/types.KeyPrefixRestakerDelegationInfo"), join(s, a, o))
+//@ define delRaw(c, s, a, o)  = get(c, "delegation", delKey(s, a, o))
+//@ define delInfo(c, s, a, o) = unm["x/delegation/types.DelegationAmounts"](delRaw(c, s, a, o))
+//@ define delShare(c, s, a, o) = ite(delRaw(c, s, a, o) == nil, 0, val(delInfo(c, s, a, o).UndelegatableShare))
+//@ define delWait(c, s, a, o)  = ite(delRaw(c, s, a, o) == nil, 0, val(delInfo(c, s, a, o).WaitUndelegationAmount))
+//@ define assocKey(s)    = cat(g("x/delegation/types.KeyPrefixAssociatedOperatorByStaker"), s)
+//@ define assocRaw(c, s) = get(c, "delegation", assocKey(s))
+
+//@ func (Keeper).UpdateDelegationState
+//@   modifies get(ctx, "delegation", delKey(stakerID, assetID, opAddr))
+//@   ensures[C09.uds.atomic] err != nil ==> state(ctx) == old(state(ctx))
+//@   ensures[C01.uds.err]    (err != nil) <==> (deltaAmounts == nil || bech32err(opAddr) ||
+//@                             uflow(old(delWait(ctx, stakerID, assetID, opAddr)), dz(deltaAmounts.WaitUndelegationAmount)) ||
+//@                             uflow(old(delShare(ctx, stakerID, assetID, opAddr)), dz(deltaAmounts.UndelegatableShare)))
+//@   ensures[C01.uds.delta]  err == nil ==> delRaw(ctx, stakerID, assetID, opAddr) != nil &&
+//@                             delWait(ctx, stakerID, assetID, opAddr) == old(delWait(ctx, stakerID, assetID, opAddr)) + dz(deltaAmounts.WaitUndelegationAmount) &&
+//@                             delShare(ctx, stakerID, assetID, opAddr) == old(delShare(ctx, stakerID, assetID, opAddr)) + dz(deltaAmounts.UndelegatableShare)
+//@   ensures[C02.uds.zero]   err == nil ==> (r0 <==> delShare(ctx, stakerID, assetID, opAddr) == 0)
+//@   ensures[C01.uds.nonneg] err == nil && old(delWait(ctx, stakerID, assetID, opAddr)) >= 0 && old(delShare(ctx, stakerID, assetID, opAddr)) >= 0 ==>
+//@                             delWait(ctx, stakerID, assetID, opAddr) >= 0 && delShare(ctx, stakerID, assetID, opAddr) >= 0
+
+//@ func (*Keeper).GetSingleDelegationInfo
+//@   ensures[C01.gsdi.spec] (err != nil) <==> (delRaw(ctx, stakerID, assetID, operatorAddr) == nil)
+//@   ensures[C01.gsdi.val]  err == nil ==> r0 != nil && *r0 == delInfo(ctx, stakerID, assetID, operatorAddr)
+
+//@ func (*Keeper).GetAssociatedOperator
+//@   ensures[C02.gao.spec] err == nil && r0 == ite(assocRaw(ctx, stakerID) == nil, "", assocRaw(ctx, stakerID))
+
+//@ func (*Keeper).SetAssociatedOperator
+//@   modifies get(ctx, "delegation", assocKey(stakerID))
+//@   ensures[C02.sao.spec] (err != nil) <==> bech32err(operatorAddr)
+//@   ensures[C02.sao.set]  err == nil ==> assocRaw(ctx, stakerID) == operatorAddr
+//@   ensures[C09.sao.atomic] err != nil ==> state(ctx) == old(state(ctx))
+
+//@ func (*Keeper).DeleteAssociatedOperator
+//@   modifies get(ctx, "delegation", assocKey(stakerID))
+//@   ensures[C02.dao.spec] err == nil && assocRaw(ctx, stakerID) == nil
+
+// ---------------------------------------------------------------------------------------------
+// C02 store layer: shares computed from the operator's pool row
+
+//@ define poolAbsent(c, o, a) = opRaw(c, accstr(o), a) == nil
+//@ define pS(c, o, a) = opShare(c, accstr(o), a)
+//@ define pT(c, o, a) = opTotal(c, accstr(o), a)
+
+//@ func (Keeper).CalculateShare
+//@   requires !isnil(amount)
+//@   ensures[C02.cs.err]  (err != nil) <==> (!poolAbsent(ctx, operator, assetID) && pS(ctx, operator, assetID) != 0 && pT(ctx, operator, assetID) == 0)
+//@   ensures[C02.cs.spec] err == nil ==> !isnil(share) && val(share) ==
+//@        ite(poolAbsent(ctx, operator, assetID) || pS(ctx, operator, assetID) == 0, val(amount) * P18,
+//@            shares_from_tokens(pS(ctx, operator, assetID), val(amount), pT(ctx, operator, assetID)))
+
+//@ func (Keeper).ValidateUndelegationAmount
+//@   requires !isnil(amount)
+//@   ensures[C03.vua.err]  (err != nil) <==> (val(amount) <= 0 || delRaw(ctx, stakerID, assetID, accstr(operator)) == nil || poolAbsent(ctx, operator, assetID) ||
+//@        (pT(ctx, operator, assetID) == 0 && pS(ctx, operator, assetID) != 0) ||
+//@        (pT(ctx, operator, assetID) != 0 && shares_from_tokens(pS(ctx, operator, assetID), val(amount), pT(ctx, operator, assetID)) > delShare(ctx, stakerID, assetID, accstr(operator))) ||
+//@        (pT(ctx, operator, assetID) == 0 && 0 > delShare(ctx, stakerID, assetID, accstr(operator))))
+//@   ensures[C02.vua.bound] err == nil ==> !isnil(share) && val(share) <= delShare(ctx, stakerID, assetID, accstr(operator))
+//@   ensures[C02.vua.dust]  err == nil && pT(ctx, operator, assetID) != 0 ==>
+//@        (val(share) == delShare(ctx, stakerID, assetID, accstr(operator)) ||
+//@         (val(share) == shares_from_tokens(pS(ctx, operator, assetID), val(amount), pT(ctx, operator, assetID)) &&
+//@          delShare(ctx, stakerID, assetID, accstr(operator)) - val(share) >= shares_from_tokens(pS(ctx, operator, assetID), 1, pT(ctx, operator, assetID))))
+
+// C03 acceptance at the arithmetic level: an amount within the redeemable value of the staker's
+// shares never needs more shares than the staker has (under RATE, see C02 lemmas).
+//@ lemma[C03.L.accept] amount_within_position_needs_no_more_shares(S Int, T Int, s Int, x Int)
+//@   hyp  S > 0 && T > 0 && T * P18 <= S && 0 < s && s <= S && 0 < x && x <= tokens_from_shares(s, S, T)
+//@   goal shares_from_tokens(S, x, T) <= s
+
+// ---------------------------------------------------------------------------------------------
+// Removing shares (undelegation / slash): pool and staker rows move by exactly the computed token amount
+
+//@ define assocIs(c, s, o) = assocRaw(c, s) != nil && assocRaw(c, s) == accstr(o)
+
+//@ func (Keeper).RemoveShareFromOperator
+//@   requires !isnil(share)
+//@   requires pS(ctx, operator, assetID) >= 0 && pT(ctx, operator, assetID) >= 0 && opPending(ctx, accstr(operator), assetID) >= 0 && opSelf(ctx, accstr(operator), assetID) >= 0
+//@   modifies get(ctx, "assets", opKey(accstr(operator), assetID))
+//@   ensures[C09.rsfo.atomic] err != nil ==> state(ctx) == old(state(ctx))
+//@   ensures[C02.rsfo.token]  err == nil ==> !isnil(token) && val(token) == redeem_all(val(share), old(pS(ctx, operator, assetID)), old(pT(ctx, operator, assetID)))
+//@   ensures[C01.rsfo.delta]  err == nil ==> val(share) > 0 && val(share) <= old(pS(ctx, operator, assetID)) &&
+//@        pT(ctx, operator, assetID) == old(pT(ctx, operator, assetID)) - val(token) &&
+//@        pS(ctx, operator, assetID) == old(pS(ctx, operator, assetID)) - val(share) &&
+//@        opPending(ctx, accstr(operator), assetID) == old(opPending(ctx, accstr(operator), assetID)) + ite(isUndelegation, val(token), 0) &&
+//@        opSelf(ctx, accstr(operator), assetID) == old(opSelf(ctx, accstr(operator), assetID)) - ite(old(assocIs(ctx, stakerID, operator)) && accstr(operator) != "", val(share), 0)
+//@   ensures[C01.rsfo.nonneg] err == nil ==> val(token) >= 0 && pT(ctx, operator, assetID) >= 0 && pS(ctx, operator, assetID) >= 0 && opSelf(ctx, accstr(operator), assetID) >= 0
+
+//@ define slKey(o, a) = cat(g("x/delegation/types.KeyPrefixStakersByOperator"), join(o, a))
+
+// Staker list maintenance: frame only (list content is not specified here)
+//@ func (*Keeper).AppendStakerForOperator
+//@   modifies get(ctx, "delegation", slKey(operator, assetID))
+//@   ensures[C09.asfo.noerr] err == nil
+//@ loop #1
+//@   invariant true
+
+//@ func (*Keeper).DeleteStakerForOperator
+//@   modifies get(ctx, "delegation", slKey(operator, assetID))
+//@   ensures[C09.dsfo.atomic] err != nil ==> state(ctx) == old(state(ctx))
+//@   ensures[C09.dsfo.err]    (err != nil) <==> (old(get(ctx, "delegation", slKey(operator, assetID))) == nil)
+//@ loop #1
+//@   invariant true
+
+//@ func (Keeper).RemoveShare
+//@   requires !isnil(share)
+//@   requires pS(ctx, operator, assetID) >= 0 && pT(ctx, operator, assetID) >= 0 && opPending(ctx, accstr(operator), assetID) >= 0 && opSelf(ctx, accstr(operator), assetID) >= 0
+//@   modifies get(ctx, "assets", opKey(accstr(operator), assetID)), get(ctx, "assets", stakerKey(stakerID, assetID)),
+//@            get(ctx, "delegation", delKey(stakerID, assetID, accstr(operator))), get(ctx, "delegation", slKey(accstr(operator), assetID))
+//@   ensures[C02.rs.token]  err == nil ==> !isnil(removeToken) && val(removeToken) == redeem_all(val(share), old(pS(ctx, operator, assetID)), old(pT(ctx, operator, assetID)))
+//@   ensures[C01.rs.pool]   err == nil ==> pT(ctx, operator, assetID) == old(pT(ctx, operator, assetID)) - val(removeToken) &&
+//@        pS(ctx, operator, assetID) == old(pS(ctx, operator, assetID)) - val(share) &&
+//@        opPending(ctx, accstr(operator), assetID) == old(opPending(ctx, accstr(operator), assetID)) + ite(isUndelegation, val(removeToken), 0)
+//@   ensures[C01.rs.staker] err == nil ==> delShare(ctx, stakerID, assetID, accstr(operator)) == old(delShare(ctx, stakerID, assetID, accstr(operator))) - val(share) &&
+//@        delWait(ctx, stakerID, assetID, accstr(operator)) == old(delWait(ctx, stakerID, assetID, accstr(operator))) + ite(isUndelegation, val(removeToken), 0) &&
+//@        (isUndelegation && assetID != g("x/assets/types.ExocoreAssetID") ==>
+//@           stPending(ctx, stakerID, assetID) == old(stPending(ctx, stakerID, assetID)) + val(removeToken) &&
+//@           stWithdrawable(ctx, stakerID, assetID) == old(stWithdrawable(ctx, stakerID, assetID)) && stDeposit(ctx, stakerID, assetID) == old(stDeposit(ctx, stakerID, assetID)))
+//@   ensures[C01.rs.nonneg] err == nil ==> val(removeToken) >= 0 && val(share) > 0 && pT(ctx, operator, assetID) >= 0 && pS(ctx, operator, assetID) >= 0
+
+// ---------------------------------------------------------------------------------------------
+// C03: undelegation records, their two indexes and the hold counts
+
+//@ define urKey(op, h, n, tx) = cat(g("x/delegation/types.KeyPrefixUndelegationInfo"), join(op, hexu64(h), hexu64(n), tx))
+//@ define urRawKey(op, h, n, tx) = join(op, hexu64(h), hexu64(n), tx)
+//@ define stIdxKey(s, a, n)   = cat(g("x/delegation/types.KeyPrefixStakerUndelegationInfo"), join(s, a, hexu64(n)))
+//@ define pendIdxKey(c, n)    = cat(g("x/delegation/types.KeyPrefixPendingUndelegations"), join(hexu64(c), hexu64(n)))
+//@ define holdCount(c, rk)    = ite(get(c, "delegation", holdKey(rk)) == nil, 0, be2u64(get(c, "delegation", holdKey(rk))))
+
+//@ func (*Keeper).SetUndelegationRecords
+//@   requires ctx.height >= 0
+//@   modifies store(ctx, "delegation")
+//@   ensures[C03.sur.err]  (err != nil) <==> exists(j, 0, len(records), records[j].CompleteBlockNumber < ctx.height)
+//@   ensures[C03.sur.none] len(records) == 0 ==> state(ctx) == old(state(ctx))
+//@   ensures[C03.sur.one]  err == nil && len(records) == 1 ==>
+//@        get(ctx, "delegation", urKey(records[0].OperatorAddr, records[0].BlockNumber, records[0].LzTxNonce, records[0].TxHash)) != nil &&
+//@        state(ctx) == put(put(put(old(state(ctx)), "delegation",
+//@             urKey(records[0].OperatorAddr, records[0].BlockNumber, records[0].LzTxNonce, records[0].TxHash),
+//@             get(ctx, "delegation", urKey(records[0].OperatorAddr, records[0].BlockNumber, records[0].LzTxNonce, records[0].TxHash))), "delegation",
+//@             stIdxKey(records[0].StakerID, records[0].AssetID, records[0].LzTxNonce), urRawKey(records[0].OperatorAddr, records[0].BlockNumber, records[0].LzTxNonce, records[0].TxHash)), "delegation",
+//@             pendIdxKey(records[0].CompleteBlockNumber, records[0].LzTxNonce), urRawKey(records[0].OperatorAddr, records[0].BlockNumber, records[0].LzTxNonce, records[0].TxHash))
+//@   ensures[C03.sur.rec]  err == nil && len(records) == 1 ==>
+//@        unm["x/delegation/types.UndelegationRecord"](get(ctx, "delegation", urKey(records[0].OperatorAddr, records[0].BlockNumber, records[0].LzTxNonce, records[0].TxHash))) ==
+//@        norm["x/delegation/types.UndelegationRecord"](records[0])
+//@ loop #1
+//@   invariant -1 <= phi1 && phi1 < len(records)
+//@   invariant phi1 == -1 ==> state(ctx) == old(state(ctx))
+//@   invariant forall(j, 0, phi1 + 1, records[j].CompleteBlockNumber >= ctx.height)
+//@   invariant phi1 == 0 ==>
+//@        get(ctx, "delegation", urKey(records[0].OperatorAddr, records[0].BlockNumber, records[0].LzTxNonce, records[0].TxHash)) != nil &&
+//@        state(ctx) == put(put(put(old(state(ctx)), "delegation",
+//@             urKey(records[0].OperatorAddr, records[0].BlockNumber, records[0].LzTxNonce, records[0].TxHash),
+//@             get(ctx, "delegation", urKey(records[0].OperatorAddr, records[0].BlockNumber, records[0].LzTxNonce, records[0].TxHash))), "delegation",
+//@             stIdxKey(records[0].StakerID, records[0].AssetID, records[0].LzTxNonce), urRawKey(records[0].OperatorAddr, records[0].BlockNumber, records[0].LzTxNonce, records[0].TxHash)), "delegation",
+//@             pendIdxKey(records[0].CompleteBlockNumber, records[0].LzTxNonce), urRawKey(records[0].OperatorAddr, records[0].BlockNumber, records[0].LzTxNonce, records[0].TxHash))
+//@   invariant phi1 == 0 ==>
+//@        unm["x/delegation/types.UndelegationRecord"](get(ctx, "delegation", urKey(records[0].OperatorAddr, records[0].BlockNumber, records[0].LzTxNonce, records[0].TxHash))) ==
+//@        norm["x/delegation/types.UndelegationRecord"](records[0])
+
+// ---------------------------------------------------------------------------------------------
+// UndelegateFrom (C01 conservation, C03 one exact record)
+
+//@ define duStaker(p) = ite(p.StakerAddress == nil, "", joinsep("_", hexenc(p.StakerAddress), hexu64(p.ClientChainID)))
+//@ define duAsset(p)  = ite(p.AssetsAddress == nil, "", joinsep("_", hexenc(p.AssetsAddress), hexu64(p.ClientChainID)))
+//@ define duRecKey(c, p) = urKey(accstr(p.OperatorAddress), c.height, p.LzNonce, hashstr(p.TxHash))
+//@ define duRec(c, p)    = unm["x/delegation/types.UndelegationRecord"](get(c, "delegation", duRecKey(c, p)))
+
+//@ func (*Keeper).UndelegateFrom
+//@   requires params != nil && !isnil(params.OpAmount) && ctx.height >= 0
+//@   requires k.hooks != nil
+//@   requires pS(ctx, params.OperatorAddress, duAsset(params)) >= 0 && pT(ctx, params.OperatorAddress, duAsset(params)) >= 0 &&
+//@            opPending(ctx, accstr(params.OperatorAddress), duAsset(params)) >= 0 && opSelf(ctx, accstr(params.OperatorAddress), duAsset(params)) >= 0
+//@   modifies store(ctx, "delegation"), store(ctx, "dogfood"), get(ctx, "assets", opKey(accstr(params.OperatorAddress), duAsset(params))),
+//@            get(ctx, "assets", stakerKey(duStaker(params), duAsset(params)))
+//@   ensures[C03.uf.record] err == nil ==> get(ctx, "delegation", duRecKey(ctx, params)) != nil &&
+//@        duRec(ctx, params).StakerID == duStaker(params) && duRec(ctx, params).AssetID == duAsset(params) &&
+//@        duRec(ctx, params).OperatorAddr == accstr(params.OperatorAddress) && duRec(ctx, params).IsPending &&
+//@        duRec(ctx, params).BlockNumber == ctx.height && duRec(ctx, params).LzTxNonce == params.LzNonce &&
+//@        duRec(ctx, params).CompleteBlockNumber == ctx.height + g("x/operator/types.UnbondingExpiration") &&
+//@        duRec(ctx, params).Amount == duRec(ctx, params).ActualCompletedAmount && val(duRec(ctx, params).Amount) >= 0
+//@   ensures[C03.uf.index]  err == nil ==>
+//@        get(ctx, "delegation", stIdxKey(duStaker(params), duAsset(params), params.LzNonce)) == urRawKey(accstr(params.OperatorAddress), ctx.height, params.LzNonce, hashstr(params.TxHash)) &&
+//@        get(ctx, "delegation", pendIdxKey(ctx.height + g("x/operator/types.UnbondingExpiration"), params.LzNonce)) == urRawKey(accstr(params.OperatorAddress), ctx.height, params.LzNonce, hashstr(params.TxHash))
+//@   ensures[C01.uf.pool]   err == nil ==>
+//@        pT(ctx, params.OperatorAddress, duAsset(params)) == old(pT(ctx, params.OperatorAddress, duAsset(params))) - val(duRec(ctx, params).Amount) &&
+//@        opPending(ctx, accstr(params.OperatorAddress), duAsset(params)) == old(opPending(ctx, accstr(params.OperatorAddress), duAsset(params))) + val(duRec(ctx, params).Amount) &&
+//@        delWait(ctx, duStaker(params), duAsset(params), accstr(params.OperatorAddress)) == old(delWait(ctx, duStaker(params), duAsset(params), accstr(params.OperatorAddress))) + val(duRec(ctx, params).Amount)
+//@   ensures[C01.uf.staker] err == nil && duAsset(params) != g("x/assets/types.ExocoreAssetID") ==>
+//@        stPending(ctx, duStaker(params), duAsset(params)) == old(stPending(ctx, duStaker(params), duAsset(params))) + val(duRec(ctx, params).Amount) &&
+//@        stWithdrawable(ctx, duStaker(params), duAsset(params)) == old(stWithdrawable(ctx, duStaker(params), duAsset(params)))
+//@   ensures[C02.uf.amount] err == nil ==> val(duRec(ctx, params).Amount) <= old(pT(ctx, params.OperatorAddress, duAsset(params))) &&
+//@        delShare(ctx, duStaker(params), duAsset(params), accstr(params.OperatorAddress)) <= old(delShare(ctx, duStaker(params), duAsset(params), accstr(params.OperatorAddress)))
